@@ -5,7 +5,15 @@ import glob, os, re
 V = '/verif'
 part1 = open(V + '/DESIGN.part1.md').read()
 out = [part1.rstrip() + '\n\n---\n\n# Part II — the machinery as built\n\n(Part I above is the design as it was written before any code existed; where the two parts differ, Part II is what exists.)\n']
-out.append(open(V + '/design_notes/00-as-built.md').read())
+import sys; sys.path.insert(0, V + '/tools')
+import status_table
+asb = open(V + '/design_notes/00-as-built.md').read()
+asb = asb.replace('<!--STATUS_TABLE-->', status_table.table())
+chk = 'not yet run on this state (`tools/coqchk_all.sh`).'
+if os.path.exists(V + '/coqchk_summary.txt'):
+    chk = open(V + '/coqchk_summary.txt').read().strip()
+asb = asb.replace('<!--COQCHK-->', chk)
+out.append(asb)
 out.append('\n## 20. Per-property notes (written by the builder of each property)\n')
 for p in sorted(glob.glob(V + '/design_notes/C*.md')):
     t = open(p).read()
